@@ -273,6 +273,16 @@ class Gen:
         b3 = 12 + rng.below(6)
         lib.append(C("t", "wrapA", self.tag(), "WrapA", [("m", "n"), ("t", "t")],
                      [F("x", R("optA", R("m"), R("t"))), F("y", R("long"), mask=("m", b3))]))
+        # the same with the # argument in SECOND position, and a third level (positions 0 -> 1 -> 1)
+        b4, b5 = 18 + rng.below(3), 21 + rng.below(3)
+        lib.append(C("t", "optB", self.tag(), "OptB", [("t", "t"), ("n", "n")],
+                     [F("a", R("t"), mask=("n", b4)), F("b", R("long"), mask=("n", b5))]))
+        b6 = 24 + rng.below(3)
+        lib.append(C("t", "wrapB", self.tag(), "WrapB", [("t", "t"), ("m", "n")],
+                     [F("y", R("int"), mask=("m", b6)), F("x", R("optB", R("t"), R("m")))]))
+        b7 = 27 + rng.below(3)
+        lib.append(C("t", "wrapC", self.tag(), "WrapC", [("m", "n"), ("t", "t")],
+                     [F("x", R("wrapB", R("t"), R("m"))), F("z", R("int"), mask=("m", b7))]))
         if not self.wire and rng.chance(1, 2):
             lib.append(C("t", "chainA", self.tag(), "ChainA", [("k", "n")],
                          [F("head", R("int"), mask=("k", 20)), F("tail", R("chainA", R("k")), mask=("k", 21)),
@@ -305,7 +315,13 @@ class Gen:
                     return (ty, True, args)
                 return (cons[0], False, args)
             return (ty, False, args)
-        g = rng.below(7)
+        g = rng.below(10)
+        if g == 7:
+            return rng.choice([R("OptB", self.type_expr(ctx, depth - 1), self.nat_arg(ctx)), R("optB", self.type_expr(ctx, depth - 1), self.nat_arg(ctx))])
+        if g == 8:
+            return rng.choice([R("WrapB", self.type_expr(ctx, depth - 1), self.nat_arg(ctx)), R("wrapB", self.type_expr(ctx, depth - 1), self.nat_arg(ctx))])
+        if g == 9:
+            return rng.choice([R("WrapC", self.nat_arg(ctx), self.type_expr(ctx, depth - 1)), R("wrapC", self.nat_arg(ctx), self.type_expr(ctx, depth - 1))])
         sub = lambda: self.type_expr(ctx, depth - 1)
         if g == 0:
             return rng.choice([R("Vector", sub()), R("Vector", sub(), bare=True), R("vector", sub())])
@@ -564,7 +580,63 @@ def safe_function_new_mask(s, rng, gen):
     return s, {"kind": "function-new-mask", "comb": c["n"]}
 
 
-SAFE_EDITS = [safe_append_masked_field, safe_append_masked_field, safe_append_constructor, safe_add_type, safe_add_function,
+def safe_append_multi(s, rng, gen):
+    """one comparison appends two or three fields to ONE combinator under DIFFERENT local field masks; where possible the
+    later field uses a bit that is free in its own mask but taken in the mask of the first appended field"""
+    cands = []
+    for ci, c in enumerate(s):
+        if c["k"] == "b":
+            continue
+        ok = []
+        for fi, name in local_nat_fields(c):
+            if name_used_as_arg(c, name) or implicit_scale_uses(c, fi) or c["f"][fi]["m"]:
+                continue
+            ok.append(name)
+        if len(ok) >= 2:
+            cands.append((ci, ok))
+    if not cands:
+        return None
+    ci, ok = rng.choice(cands)
+    s = copy.deepcopy(s)
+    c = s[ci]
+    rng.shuffle(ok)
+    used = {n: direct_bits(c, n) for n in ok}
+    first = ok[0]
+    free0 = [b for b in range(32) if b not in used[first]]
+    if not free0:
+        return None
+    b0 = rng.choice(free0)
+    plan = [(first, b0)]
+    taken_first = set(used[first]) | {b0}
+    for other in ok[1:3]:
+        pref = [b for b in sorted(taken_first) if b not in used[other]]
+        free = pref if pref and rng.chance(3, 4) else [b for b in range(32) if b not in used[other]]
+        if free:
+            plan.append((other, rng.choice(free)))
+    if len(plan) < 2:
+        return None
+    for name, bit in plan:
+        c["f"].append(F(fresh_field_name(c), R(rng.choice(PRIMS)), mask=(name, bit)))
+    return s, {"kind": "append-masked-fields-different-masks", "comb": c["n"], "n": len(plan)}
+
+
+def plant_two_masks(s, rng, gen):
+    """give a combinator two mask-only # fields with some bits in use (so that safe_append_multi applies)"""
+    hosts = [ci for ci, c in enumerate(s) if c["k"] in "tf" and c["n"][0] in "tf" and c["n"] not in ("tuple",)]
+    if not hosts:
+        return s
+    s = copy.deepcopy(s)
+    c = s[rng.choice(hosts)]
+    a, b = fresh_field_name(c), None
+    c["f"].append(F(a, R("#")))
+    b = fresh_field_name(c)
+    c["f"].append(F(b, R("#")))
+    for _ in range(rng.range(1, 3)):
+        c["f"].append(F(fresh_field_name(c), R(rng.choice(PRIMS)), mask=(rng.choice([a, b]), rng.below(6))))
+    return s
+
+
+SAFE_EDITS = [safe_append_multi, safe_append_multi, safe_append_masked_field, safe_append_masked_field, safe_append_constructor, safe_add_type, safe_add_function,
               safe_function_new_mask]
 
 
@@ -955,7 +1027,102 @@ def uns_reuse_bit_through_template(s, rng, gen):
     return s, {"kind": "reuse-mask-bit-of-template", "comb": c["n"], "class": "guard"}
 
 
-UNSAFE_EDITS = [uns_reuse_bit_through_template, uns_reuse_bit_through_template, uns_change_tag, uns_size_bit, uns_const_bit, uns_remove_constructor, uns_remove_function, uns_remove_field, uns_remove_targ, uns_change_type, uns_change_type,
+# where the # argument of a library template flows: name -> (position of the # argument, next template or None)
+NAT_FLOW = {"optA": (0, None), "OptA": (0, None), "optB": (1, None), "OptB": (1, None),
+            "wrapA": (0, "optA"), "WrapA": (0, "optA"), "wrapB": (1, "optB"), "WrapB": (1, "optB"),
+            "wrapC": (0, "wrapB"), "WrapC": (0, "wrapB")}
+NAT_NAME = {"optA": "n", "optB": "n", "wrapA": "m", "wrapB": "m", "wrapC": "m"}
+
+
+def uns_reuse_ancestor_bit(s, rng, gen):
+    """a local # field flows through two or three template levels (outer.m -> wrapX m -> optX n); append to a DEEPER
+    template a field guarded by a bit that the outer combinator or an intermediate template already uses"""
+    lib = {c["n"]: c for c in s if c["n"] in NAT_NAME}
+    cands = []
+    for ci, c in enumerate(s):
+        if c["k"] == "b" or c["n"] in lib:
+            continue
+        for fi, name in local_nat_fields(c):
+            for f in c["f"][fi + 1:]:
+                if f["r"]:
+                    continue
+                for p_, n in nodes(f["t"]):
+                    if isinstance(n, int) or n[0] not in NAT_FLOW:
+                        continue
+                    pos, nxt = NAT_FLOW[n[0]]
+                    if pos >= len(n[2]) or isinstance(n[2][pos], int) or n[2][pos][0] != name or nxt is None:
+                        continue
+                    head = n[0][0].lower() + n[0][1:]
+                    above = set(direct_bits(c, name)) | direct_bits(lib[head], NAT_NAME[head]) if head in lib else set()
+                    deep = nxt
+                    while deep is not None and deep in lib:
+                        bits = sorted(above - direct_bits(lib[deep], NAT_NAME[deep]))
+                        if bits:
+                            cands.append((deep, bits, c["n"], fi, pos))
+                        above = above | direct_bits(lib[deep], NAT_NAME[deep])
+                        deep = NAT_FLOW[deep][1]
+    if not cands:
+        return None
+    deep, bits, outer, fi, pos = rng.choice(cands)
+    s = copy.deepcopy(s)
+    c = [c for c in s if c["n"] == deep][0]
+    c["f"].append(F(fresh_field_name(c), R(rng.choice(["int", "long"])), mask=(NAT_NAME[deep], rng.choice(bits))))
+    return s, {"kind": "reuse-ancestor-mask-bit", "comb": deep, "outer": outer, "field-index": fi, "arg-position": pos,
+               "class": "guard"}
+
+
+def plant_nat_flow(s, rng, gen):
+    """make sure a base schema has a # field (at a random field index, with some bits in use) that flows through
+    two or three template levels"""
+    hosts = [ci for ci, c in enumerate(s) if c["k"] == "t" and c["n"].startswith("t") and c["n"] not in ("tuple",) and not c["ta"]]
+    if not hosts:
+        return s
+    s = copy.deepcopy(s)
+    c = s[rng.choice(hosts)]
+    for _ in range(rng.below(3)):
+        c["f"].append(F(fresh_field_name(c), R(rng.choice(PRIMS))))
+    m = fresh_field_name(c)
+    c["f"].append(F(m, R("#")))
+    for _ in range(rng.range(1, 2)):
+        c["f"].append(F(fresh_field_name(c), R(rng.choice(PRIMS)), mask=(m, rng.below(32))))
+    k = rng.below(3)
+    inner = R(rng.choice(PRIMS))
+    use = [R("wrapA", R(m), inner), R("wrapB", inner, R(m)), R("wrapC", R(m), inner)][k]
+    c["f"].append(F(fresh_field_name(c), use))
+    return s
+
+
+def uns_reuse_bit_second_mask(s, rng, gen):
+    """one comparison appends two fields under different local masks: the first on a free bit of mask A, the second on a
+    bit mask B already uses (and A does not)"""
+    cands = []
+    for ci, c in enumerate(s):
+        if c["k"] == "b":
+            continue
+        nats = [(fi, n) for fi, n in local_nat_fields(c) if not c["f"][fi]["m"]]
+        for fa, a in nats:
+            if name_used_as_arg(c, a) or implicit_scale_uses(c, fa):
+                continue
+            for fb, b in nats:
+                if a == b:
+                    continue
+                usedb = sorted(set(f["m"][1] for f in c["f"][fb + 1:] if f["m"] and f["m"][0] == b) - direct_bits(c, a))
+                freea = [x for x in range(32) if x not in direct_bits(c, a)]
+                if usedb and freea:
+                    cands.append((ci, a, b, freea, usedb))
+    if not cands:
+        return None
+    ci, a, b, freea, usedb = rng.choice(cands)
+    s = copy.deepcopy(s)
+    c = s[ci]
+    bit_b = rng.choice(usedb)
+    fa_ = [x for x in freea if x != bit_b] or freea
+    c["f"].append(F(fresh_field_name(c), R(rng.choice(PRIMS)), mask=(a, rng.choice(fa_))))
+    c["f"].append(F(fresh_field_name(c), R(rng.choice(PRIMS)), mask=(b, bit_b)))
+    return s, {"kind": "reuse-mask-bit-second-mask", "comb": c["n"], "class": "guard"}
+
+
+UNSAFE_EDITS = [uns_reuse_bit_second_mask, uns_reuse_ancestor_bit, uns_reuse_ancestor_bit, uns_reuse_bit_through_template, uns_reuse_bit_through_template, uns_change_tag, uns_size_bit, uns_const_bit, uns_remove_constructor, uns_remove_function, uns_remove_field, uns_remove_targ, uns_change_type, uns_change_type,
                 uns_change_type, uns_flip_bare, uns_change_repeat_scale, uns_mask_edit, uns_mask_edit, uns_append_unmasked,
                 uns_reuse_bit, uns_to_union, uns_to_union]
 
@@ -1036,6 +1203,10 @@ def build_cases(c, impl, nbase, want=("self", "safe", "unsafe", "mix")):
         base = gen.schema()
         if rng.chance(1, 2):
             base = plant_bare_use(base, rng, gen)
+        if rng.chance(1, 2):
+            base = plant_nat_flow(base, rng, gen)
+        if rng.chance(1, 2):
+            base = plant_two_masks(base, rng, gen)
         eb = enc(base)
         if "self" in want:
             cases.append(("lint.check %s %s" % (eb, eb), "self", {}))
